@@ -134,15 +134,15 @@ theorem C09_once_counterexample : ¬ C09_once_statement := by
   have m2 : (1 + 1 / 10 ^ 9 : ℚ) ∈ ws :=
     (C09_freqs_mem _ _ _ hws _).mpr ⟨c2, by simp, _, rfl, Or.inl ⟨by simp [FComp.isPeriodic, c2], rfl⟩⟩
   have a1 : (⟨false, 1⟩ : Src).activeIndex 1 (1 / 1000) = some 0 := by
-    simp [Src.activeIndex, gateSingle, absQ]
+    simp [Src.activeIndex, gateSingle, mfAbsQ]
   have a2 : (⟨false, 1⟩ : Src).activeIndex (1 + 1 / 10 ^ 9) (1 / 1000) = some 0 := by
-    simp [Src.activeIndex, gateSingle, absQ]; norm_num
+    simp [Src.activeIndex, gateSingle, mfAbsQ]; norm_num
   have := h [c1, c2] 10 (1 / 1000) ws (by norm_num) hws c1 (by simp) ⟨false, 1⟩
     (by simp [FComp.toSrc?, FComp.isPeriodic, c1]) 1 m1 _ m2 0 a1 a2
   norm_num at this
 
-theorem absQ_eq_abs (x : ℚ) : absQ x = |x| := by
-  unfold absQ
+theorem mfAbsQ_eq_abs (x : ℚ) : mfAbsQ x = |x| := by
+  unfold mfAbsQ
   split
   · rename_i h; exact (abs_of_nonneg h).symm
   · rename_i h; exact (abs_of_neg (not_le.mp h)).symm
@@ -164,7 +164,7 @@ theorem C09_once_partial (ws : List ℚ) (wres : ℚ) (hres : 0 ≤ wres)
       · simp only [g1, g2, if_true, Option.some.injEq] at a1 a2
         unfold gatePeriodic at g1 g2
         rw [a1] at g1; rw [a2] at g2
-        simp only [Bool.not_eq_true', decide_eq_false_iff_not, not_lt, absQ_eq_abs] at g1 g2
+        simp only [Bool.not_eq_true', decide_eq_false_iff_not, not_lt, mfAbsQ_eq_abs] at g1 g2
         -- |w_i/w0 − n| ≤ w_res/w0  ⇒  |w_i − n·w0| ≤ w_res
         have e1 : |w1 - n * s.w| ≤ wres := by
           have : w1 - n * s.w = (w1 / s.w - n) * s.w := by field_simp
@@ -190,7 +190,7 @@ theorem C09_once_partial (ws : List ℚ) (wres : ℚ) (hres : 0 ≤ wres)
     by_cases g1 : gateSingle w1 s.w wres = true
     · by_cases g2 : gateSingle w2 s.w wres = true
       · unfold gateSingle at g1 g2
-        simp only [Bool.not_eq_true', decide_eq_false_iff_not, not_lt, absQ_eq_abs] at g1 g2
+        simp only [Bool.not_eq_true', decide_eq_false_iff_not, not_lt, mfAbsQ_eq_abs] at g1 g2
         have : |w1 - w2| ≤ 2 * wres := by
           have : w1 - w2 = (w1 - s.w) - (w2 - s.w) := by ring
           rw [this]
